@@ -132,7 +132,7 @@ fn known_class(opts: &Opts, runs: &[Vec<LeafKey>], src: &str) -> Option<&'static
         if gran == "One" {
             for (i, a) in run.iter().enumerate() {
                 for (j, b) in run.iter().enumerate() {
-                    if i != j && a.3.is_some() && a.3 != b.3 && (b.2 == a.2 || b.2.starts_with(&format!("{}::", a.2))) {
+                    if i != j && a.3.is_some() && ((b.2 == a.2 && a.3 != b.3) || b.2.starts_with(&format!("{}::", a.2))) {
                         return Some("one-merge-loses-alias");
                     }
                 }
@@ -162,8 +162,8 @@ impl Property for C10 {
     fn params(&self, tier: Tier) -> Params {
         Params {
             cases: match tier {
-                Tier::Quick => 12_000,
-                Tier::Thorough => 300_000,
+                Tier::Quick => 150_000,
+                Tier::Thorough => 2_000_000,
             },
             max_bytes: 512,
             timeout: Duration::from_secs(20),
@@ -284,11 +284,29 @@ impl Property for C10 {
                 return fail(kind, format!("imports {kind}: lost {lost:?}, added {added:?}\n{src}\n--->\n{}", r.text));
             }
         }
-        // comments survive exactly once
+        // comments survive exactly once (a comment attached to an import with an empty list goes
+        // with it: that is C03's subject, not an import that was merged across a comment)
+        let compact: String = src.chars().filter(|c| !c.is_whitespace()).collect();
+        let has_empty_import = compact.contains("::{};") || compact.contains("use{};");
         for p in case["payloads"].as_array().into_iter().flatten() {
+            if has_empty_import {
+                o.labels.push("comment-check-skipped:empty-import".into());
+                break;
+            }
             if let Some(p) = p.as_str() {
                 let n = r.text.matches(&format!("// {p}")).count();
                 if n != 1 {
+                    // known class (KF-C10-1): Item granularity removes a later import with the
+                    // same path and alias whatever is attached to it, here a comment
+                    let gran = opt(&opts, "imports_granularity").unwrap_or("Preserve");
+                    let dup = in_runs.iter().any(|run| run.iter().enumerate().any(|(i, a)| run[i + 1..].iter().any(|b| a.2 == b.2 && a.3 == b.3)));
+                    if gran == "Item" && dup && n == 0 {
+                        if !judge_known {
+                            o.excluded.push("known-class:item-dedupe-drops-commented-duplicate".into());
+                            continue;
+                        }
+                        return Outcome::fail("item-dedupe-drops-commented-duplicate", format!("comment `{p}` went with the duplicate import it was attached to\n{src}\n--->\n{}", r.text)).nontrivial(true);
+                    }
                     return fail("comment", format!("comment `{p}` occurs {n} times in the output\n{src}\n--->\n{}", r.text));
                 }
             }
